@@ -7,7 +7,7 @@ From TLV Require Import Base.Shape Base.PyList Base.Tensor Base.BigSum Base.Ops 
   Proofs.FactorizedProofs Proofs.FactorizedProofs2 Proofs.FactorizedProofs3 Proofs.FactorizedProofs4
   Proofs.FactorizedProofs5 Proofs.FactorizedProofs6 Proofs.FactorizedProofs7 Proofs.FactorizedProofs8
   Proofs.FactorizedProofs9 Proofs.FactorizedProofs10 Proofs.FactorizedProofs11 Proofs.FactorizedProofs12 Proofs.FactorizedProofs13 Proofs.FactorizedProofs14
-  Proofs.BaseProofs6 Proofs.FactorizedProofs15 Proofs.FactorizedProofs16 Proofs.FactorizedProofs17 Proofs.FactorizedProofs18 Proofs.FactorizedProofs19 Proofs.FactorizedProofs20 Proofs.FactorizedProofs21 Proofs.FactorizedProofs22 Proofs.FactorizedProofs23 Proofs.FactorizedProofs24 Proofs.FactorizedProofs25 Proofs.FactorizedProofs26 Proofs.FactorizedProofs27.
+  Proofs.BaseProofs6 Proofs.FactorizedProofs15 Proofs.FactorizedProofs16 Proofs.FactorizedProofs17 Proofs.FactorizedProofs18 Proofs.FactorizedProofs19 Proofs.FactorizedProofs20 Proofs.FactorizedProofs21 Proofs.FactorizedProofs22 Proofs.FactorizedProofs23 Proofs.FactorizedProofs24 Proofs.FactorizedProofs25 Proofs.FactorizedProofs26 Proofs.FactorizedProofs27 Proofs.FactorizedProofs28.
 From TLV Require Model.Tenalg.
 From Coq Require Import Sorting.Sorted Sorting.Permutation.
 Import ListNotations.
@@ -1088,3 +1088,72 @@ Theorem C03_mode_dot_twice : forall (F : Type) (Op : fops F), is_ring Op -> fora
   exists t M21, mdot Op M2 M1 = Ok M21 /\ rbind (mode_dot Op T M1 m) (fun T' => mode_dot Op T' M2 m) = Ok t /\ mode_dot Op T M21 m = Ok t.
 Proof. exact mode_dot_twice. Qed.
 Print Assumptions C03_mode_dot_twice.
+
+(* ================================================================== round 7 follow-up (Proofs28) *)
+(* ------------------------------------------------------------------ tucker_to_tensor(modes=...), pairwise distinct modes: the Err half *)
+(* fit0 s (M, m): M is a matrix whose column count is the size s_m (no non-emptiness).  A fold over distinct modes -- in ANY order -- returns a
+   tensor only if every pair fits the core itself; so on non-fitting operands the sorted order of multi_mode_dot AND the list order raise *)
+Theorem C03_fit0_unfold : forall (F : Type) (s : list nat) (M : tensor F) (m : nat),
+  fit0 F s (M, m) <-> ndim M = 2 /\ m < length s /\ ncols M = nth m s 0.
+Proof. intros. unfold fit0. cbn [fst snd]. tauto. Qed.
+Print Assumptions C03_fit0_unfold.
+Theorem C03_tucker_modes_misfit_any_order : forall (F : Type) (Op : fops F) (core : tensor F) (fs : list (tensor F)) (ms : list nat),
+  NoDup (map snd (combine fs ms)) -> ~ Forall (fit0 F (shape core)) (combine fs ms) ->
+  tucker_to_tensor_modes_sorted Op core fs ms = Err /\ tucker_to_tensor_modes Op core fs ms = Err.
+Proof. exact tucker_modes_misfit_any_order. Qed.
+Print Assumptions C03_tucker_modes_misfit_any_order.
+(* with C03_tucker_modes_any_order: for a well-formed non-empty core, non-empty factors and pairwise distinct modes the sorted model and the
+   list-order fold ALWAYS agree -- the same tensor, or both raise; no fitting hypothesis *)
+Theorem C03_tucker_modes_any_order_total : forall (F : Type) (Op : fops F), is_ring Op -> forall (core : tensor F) (fs : list (tensor F)) (ms : list nat),
+  wf core -> 0 < prod (shape core) -> Forall (fun q : tensor F * nat => 0 < nrows (fst q)) (combine fs ms) -> NoDup (map snd (combine fs ms)) ->
+  tucker_to_tensor_modes_sorted Op core fs ms = tucker_to_tensor_modes Op core fs ms.
+Proof. exact tucker_modes_any_order_total. Qed.
+Print Assumptions C03_tucker_modes_any_order_total.
+Example C03_tucker_modes_misfit_example :
+  let core := mk [2; 2] [1; 0; -1; 2]%Z in let fs := [mk [3; 2] [1; 2; 3; 4; 5; 6]%Z; mk [1; 3] [1; -1; 0]%Z] in
+  NoDup (map snd (combine fs [1; 0])) /\ ~ Forall (fit0 Z (shape core)) (combine fs [1; 0]).
+Proof.
+  cbv zeta. split; [cbn; repeat constructor; cbn; intuition lia|]. intros H. inversion H as [|? ? _ H']; subst. inversion H' as [|? ? (_ & _ & C) _]; subst.
+  cbn in C. discriminate.
+Qed.
+
+(* ------------------------------------------------------------------ tucker_to_tensor(transpose_factors=True) with conjugation *)
+(* multi_mode_dot multiplies by conj(transpose(M)) under both backends.  tucker_to_tensor_conj Op cj (Model/Factorized2.v) conjugates the stored
+   matrices first: it IS the reconstruction from the conjugate-transposed matrices -- to which C03_tucker_to_tensor applies --, whose entries are
+   cj(M[j, i]); without conjugation it is the tucker_to_tensor of C03_tucker_transpose_factors *)
+Theorem C03_tucker_conj_transpose : forall (F : Type) (Op : fops F) (cj : F -> F) (core : tensor F) (fs : list (tensor F)) (skip : option nat),
+  Forall (fun M => ndim M = 2) fs ->
+  tucker_to_tensor_conj Op cj core fs skip true = tucker_to_tensor Op core (map (fun M => mT Op (tconj cj M)) fs) skip false.
+Proof. exact tucker_conj_transpose. Qed.
+Print Assumptions C03_tucker_conj_transpose.
+Theorem C03_conj_transpose_entry : forall (F : Type) (Op : fops F) (cj : F -> F), cj (f0 Op) = f0 Op ->
+  forall (M : tensor F) (i j : nat), i < ncols M -> j < nrows M -> get2 Op (mT Op (tconj cj M)) i j = cj (get2 Op M j i).
+Proof. exact conj_transpose_entry. Qed.
+Print Assumptions C03_conj_transpose_entry.
+Theorem C03_tucker_conj_id : forall (F : Type) (Op : fops F) (core : tensor F) (fs : list (tensor F)) (skip : option nat) (tr : bool),
+  tucker_to_tensor_conj Op (fun x => x) core fs skip tr = tucker_to_tensor Op core fs skip tr.
+Proof. exact @tucker_conj_id. Qed.
+Print Assumptions C03_tucker_conj_id.
+Example C03_tucker_conj_example :
+  let g (a b : Z) : Tenalg.GI := (a, b) in
+  tucker_to_tensor_conj GIops gconj (mk [1; 1] [g 1 0]%Z) [mk [1; 1] [g 0 1]%Z; mk [1; 1] [g 1 0]%Z] None true = Ok (mk [1; 1] [g 0 (-1)]%Z).
+Proof. vm_compute. reflexivity. Qed.
+
+(* ------------------------------------------------------------------ PARAFAC2 with complex projections *)
+(* _validate_parafac2_tensor tests dot(transpose(P), P) = I.  On a carrier without conjugation that is 'orthonormal columns'
+   (C03_validate_parafac2_iff); on complex projections it is not: a GENUINE DEFECT (known finding parafac2_complex_projections, candidate repair
+   build/fix_candidates/C03_parafac2_complex_projections: conj(transpose(P))).  validate_parafac2_h is the repaired validator (P^H P = I): it is
+   the current one whenever the conjugation is the identity, so nothing changes for real projections; the Example shows both failures of the
+   current test at the Gaussian integers: the unitary [i] rejected, the column (1, 1, i) of Hermitian length sqrt 3 accepted *)
+Theorem C03_validate_parafac2_h_real : forall (F : Type) (Op : fops F) (w : option (tensor F)) (fs ps : list (tensor F)),
+  validate_parafac2_h Op (fun x => x) w fs ps = validate_parafac2 Op w fs ps.
+Proof. exact @validate_parafac2_h_real. Qed.
+Print Assumptions C03_validate_parafac2_h_real.
+Theorem C03_parafac2_complex_projections_refuted :
+  let g (a b : Z) : Tenalg.GI := (a, b) in
+  let A := mk [1; 1] [g 2 0]%Z in let B := mk [1; 1] [g 3 0]%Z in let C := mk [2; 1] [g 1 0; g 2 0]%Z in
+  let Pu := mk [1; 1] [g 0 1]%Z in let Pn := mk [3; 1] [g 1 0; g 1 0; g 0 1]%Z in
+  validate_parafac2 GIops None [A; B; C] [Pu] = Err /\ validate_parafac2_h GIops gconj None [A; B; C] [Pu] = Ok ([[1; 2]], 1) /\
+  validate_parafac2 GIops None [A; B; C] [Pn] = Ok ([[3; 2]], 1) /\ validate_parafac2_h GIops gconj None [A; B; C] [Pn] = Err.
+Proof. exact parafac2_complex_projection_examples. Qed.
+Print Assumptions C03_parafac2_complex_projections_refuted.
